@@ -27,7 +27,7 @@ import (
 	"verif/harness/xt"
 )
 
-const c05Rule = "rapid: SP metadata (AuthnRequestsSigned absent/false/0/true/1 x zero or one RSA certificate) x IdP WantAuthRequestsSigned {'', false, true, 1} x an original AuthnRequest validly signed by the simulated SP (POST: enveloped XML-DSig; Redirect: query-string signature; rsa-sha1 / rsa-sha256) or unsigned, then 0..2 mutations from a catalogue: field edits after signing, signature stripping, emptied / bit-flipped SignatureValue, DigestValue and query Signature, algorithm substitution, signing with an unregistered key (with its own, the registered or no KeyInfo certificate), Issuer switched to another SP, signature wrapping (signed original moved into Extensions or ds:Object under a forged document element that carries the copied Signature; same-ID variant), RelayState changed / dropped / added after signing, message re-encoded after signing, duplicate SAMLRequest parameters, parameters split between query and body, moving a message or its signature to the other binding, embedded bogus ds:Signature, bogus Signature form parameter, arbitrary bytes in Signature / SigAlg. One case in five addresses the second clause alone: nobody requires signing, the original is signed, exactly one signature-affecting mutation (nine SigAlg substitutions incl. unimplemented and re-spelled URIs). Non-trivial: a mutated or cross-binding case derived from a valid signature (under a configuration that requires signing it exercises the first clause, otherwise the second). Distinct by (mutation set, binding, flags)."
+const c05Rule = "rapid: SP metadata (AuthnRequestsSigned absent/false/0/true/1 x zero or one RSA certificate) x IdP WantAuthRequestsSigned {'', false, true, 1} x an original AuthnRequest validly signed by the simulated SP (POST: enveloped XML-DSig; Redirect: query-string signature; rsa-sha1 / rsa-sha256) or unsigned, then 0..2 mutations from a catalogue: field edits after signing, signature stripping, emptied / bit-flipped SignatureValue, DigestValue and query Signature, algorithm substitution, signing with an unregistered key (with its own, the registered or no KeyInfo certificate), Issuer switched to another SP, signature wrapping (signed original moved into Extensions or ds:Object under a forged document element that carries the copied Signature; same-ID variant), RelayState changed / dropped / added after signing, message re-encoded after signing, duplicate SAMLRequest parameters, parameters split between query and body, moving a message or its signature to the other binding, a byte string that is the signed message when read as XML and a forged one when inflated (POST binding, SAMLEncoding announcing DEFLATE), embedded bogus ds:Signature, bogus Signature form parameter, arbitrary bytes in Signature / SigAlg. One case in five addresses the second clause alone: nobody requires signing, the original is signed, exactly one signature-affecting mutation (nine SigAlg substitutions incl. unimplemented and re-spelled URIs). Non-trivial: a mutated or cross-binding case derived from a valid signature (under a configuration that requires signing it exercises the first clause, otherwise the second). Distinct by (mutation set, binding, flags)."
 
 type C05Case struct {
 	Spec    world.Spec     `json:"spec"`
@@ -62,6 +62,7 @@ var c05PostMutations = []Defect{
 	{Name: "rogue-key"}, {Name: "rogue-key-registered-cert"}, {Name: "rogue-key-no-keyinfo"},
 	{Name: "as-redirect"}, {Name: "add-signature-param", Param: "QUJD"}, {Name: "add-signature-param", Param: "!!"}, {Name: "add-sigalg-param"},
 	{Name: "dup-signature-element"}, {Name: "add-child-after-signing"}, {Name: "remove-keyinfo"}, {Name: "change-relaystate"},
+	{Name: "deflate-polyglot"}, {Name: "deflate-polyglot"},
 }
 
 var c05RedirectMutations = []Defect{
@@ -153,7 +154,7 @@ func genC05Case(t *rapid.T) C05Case {
 		var sub []Defect
 		for _, m := range cat {
 			switch m.Name {
-			case "sigalg-subst", "flip-signature", "junk-signature", "change-relaystate", "drop-relaystate", "add-relaystate", "edit-message", "edit-attr", "rogue-key", "rogue-key-registered-cert", "rogue-key-no-keyinfo", "flip-sigvalue", "flip-digest", "digestalg-subst", "reencode-message", "add-child-after-signing", "edit-issuer-other-sp":
+			case "sigalg-subst", "flip-signature", "junk-signature", "change-relaystate", "drop-relaystate", "add-relaystate", "edit-message", "edit-attr", "rogue-key", "rogue-key-registered-cert", "rogue-key-no-keyinfo", "flip-sigvalue", "flip-digest", "digestalg-subst", "reencode-message", "add-child-after-signing", "edit-issuer-other-sp", "deflate-polyglot":
 				sub = append(sub, m)
 			}
 		}
@@ -424,6 +425,21 @@ func c05Render(c C05Case, now time.Time) c05Rendered {
 		}
 		xmlb := xt.Write(tree, c.Style.W)
 		tr := spsim.Transport{Binding: "post", Plus: true, Encoding: A, RelayState: c.Relay}
+		if c.has("deflate-polyglot") && sig() != nil {
+			// one byte string, two documents: as XML it is the message the SP signed; announced as DEFLATE-encoded it inflates to a
+			// forged, unsigned message with the signed one in a comment in front of it. Whoever verifies one reading and acts on the
+			// other accepts what nobody signed.
+			ws := c.Style.W
+			ws.Decl, ws.Misc = "", ""
+			forged := out.OrigRoot.Clone()
+			forged.SetAttr("ID", "_"+forgedMark)
+			forged.SetAttr("AssertionConsumerServiceURL", "https://"+forgedMark+".example/acs")
+			forged.SetAttr("ProviderName", forgedMark)
+			if s, ok := spsim.DeflatePolyglot(xt.Write(tree, ws), xt.Write(forged, ws)); ok {
+				xmlb = s
+				tr.Encoding = spsim.EncodingDeflate
+			}
+		}
 		if c.has("change-relaystate") {
 			tr.RelayState = "changed-" + forgedMark
 		}
